@@ -220,6 +220,12 @@ def error_discipline(site):
                 k2 = _error_test_kind(ast.UnaryOp(op=ast.Not(), operand=t), name)
                 if k2:
                     return True, k2, s
+            if kind is None and not s.orelse and s.body and isinstance(s.body[-1], ast.Return):
+                # success test with an early return; the error case falls through to an unconditional raise
+                k2 = _error_test_kind(ast.UnaryOp(op=ast.Not(), operand=t), name)
+                after = rest[rest.index(s) + 1:]
+                if k2 and after and isinstance(after[0], ast.Raise) or (k2 and after and all(isinstance(x, (ast.Assign, ast.Expr)) for x in after[:-1]) and isinstance(after[-1], ast.Raise)):
+                    return True, k2 + " (early return on success, raise after)", s
             if kind:
                 return False, f"test `{ast.unparse(t)}` does not raise", s
         # any rebinding or use of other names before the test is fine; a rebinding of the result is not
